@@ -1215,6 +1215,19 @@ func rsRandAttrs(rng *rand.Rand) map[string]interface{} {
 	return a
 }
 
+// rsRandAttrsOver is rsRandAttrs, except that one time in three an id that has
+// attributes loses all of them (every present key set to null).
+func rsRandAttrsOver(rng *rand.Rand, have map[string]interface{}) map[string]interface{} {
+	if len(have) > 0 && rng.Intn(3) == 0 {
+		a := map[string]interface{}{}
+		for k := range have {
+			a[k] = nil
+		}
+		return a
+	}
+	return rsRandAttrs(rng)
+}
+
 func rsRandVal(rng *rand.Rand, s *rsFieldSpec) int64 {
 	pool := rsIntPool(s, nil)
 	switch rng.Intn(8) {
@@ -1305,9 +1318,10 @@ func (r *rsRun) genOp(rng *rand.Rand) *rsOp {
 		if fm == nil {
 			return nil
 		}
-		return &rsOp{Kind: "rowattrs", Idx: in, Fld: fm.spec.Name, Row: randRow(fm), Attrs: rsRandAttrs(rng)}
+		row := randRow(fm)
+		return &rsOp{Kind: "rowattrs", Idx: in, Fld: fm.spec.Name, Row: row, Attrs: rsRandAttrsOver(rng, fm.rowAttrs[row])}
 	case x < 80:
-		return &rsOp{Kind: "colattrs", Idx: in, Col: col, Attrs: rsRandAttrs(rng)}
+		return &rsOp{Kind: "colattrs", Idx: in, Col: col, Attrs: rsRandAttrsOver(rng, m.idx[in].colAttrs[col])}
 	case x < 85:
 		fm := pick(func(s *rsFieldSpec) bool { return s.Type == "set" || (s.Type == "time" && s.Quantum != "") })
 		if fm == nil {
@@ -1552,6 +1566,16 @@ func rsScripted() []*rsCase {
 		iv("zero", "a", 0, "b", 0, "c1", 0), iv("neg", "a", -1, "b", -1000), iv("wide", "a", 0)}
 	b2 := []*rsOp{iv("zero", "k-ü", 10, "a", -10), iv("pos", "a", 1, "b", 2), iv("wide", "b", 1<<40, "c1", -(1 << 40)), iv("neg", "c1", -500)}
 	cases = append(cases, &rsCase{name: "scripted int fields around zero (ImportValue, keyed index)", phaseA: a2, phaseB: b2})
+	// a value import large enough for the bulk path (columns x (bit depth+1) >= MaxOpN),
+	// sent twice (a client retry changes nothing), then ordinary writes to the same fragment
+	bulk := &rsOp{Kind: "importvalue", Idx: "b", Fld: "bulk"}
+	for c := 0; c < 520; c++ {
+		bulk.Bits = append(bulk.Bits, rsBit{Col: strconv.Itoa(c), Val: int64(c*7919%200001 - 100000)})
+	}
+	a3 := []*rsOp{ix("b", false, true), intf("b", "bulk", -(1 << 20), 1<<20), bulk, bulk,
+		setv("b", "bulk", "3", 777), setv("b", "bulk", "600", -5), setv("b", "bulk", "4", 0)}
+	b3 := []*rsOp{setv("b", "bulk", "5", 12345), bulk, setv("b", "bulk", "6", -1), setv("b", "bulk", "601", 1<<20)}
+	cases = append(cases, &rsCase{name: "scripted bulk ImportValue repeated, then ordinary writes", phaseA: a3, phaseB: b3})
 	return cases
 }
 
@@ -1610,7 +1634,7 @@ func TestRcheckRestart(t *testing.T) {
 		}
 	}
 	res.Evaluations = r.evals
-	res.Bound = fmt.Sprintf("%d cases run (2 scripted int-field cases + random): 1-2 indexes (keys on/off, trackExistence on/off), 4-7 fields per index of types set/mutex (cache ranked|lru|none, sizes 0,1,3,8,100,50000, keys on/off), int (bounds %v), time (quanta %q, noStandardView on/off, keys on/off), bool; columns %v or keys %q; rows %v or keys %q; %d time stamps; random phases of about %d and %d ops (Set/Clear/Set with time/int Set incl. refused values/ClearRow/Store/SetRowAttrs/SetColumnAttrs/Import/ImportValue/ImportRoaring/DeleteField/CreateField/DeleteIndex/CreateIndex/delete _exists); restarts via test.Command.Reopen; seed %d",
+	res.Bound = fmt.Sprintf("%d cases run (3 scripted int-field cases + random): 1-2 indexes (keys on/off, trackExistence on/off), 4-7 fields per index of types set/mutex (cache ranked|lru|none, sizes 0,1,3,8,100,50000, keys on/off), int (bounds %v), time (quanta %q, noStandardView on/off, keys on/off), bool; columns %v or keys %q; rows %v or keys %q; %d time stamps; random phases of about %d and %d ops (Set/Clear/Set with time/int Set incl. refused values/ClearRow/Store/SetRowAttrs/SetColumnAttrs/Import/ImportValue/ImportRoaring/DeleteField/CreateField/DeleteIndex/CreateIndex/delete _exists); restarts via test.Command.Reopen; seed %d",
 		ran, rsBounds, rsQuanta, rsColIDs, rsColKeys, rsRowIDs, rsRowKeys, len(rsTimes), nA, nB, seed)
 	if out := os.Getenv("RCHECK_OUT"); out != "" {
 		data, _ := json.MarshalIndent(res, "", " ")
